@@ -1015,6 +1015,73 @@ func addExtras(rt *rapid.T, p *idl.Program) {
 		d.Value = v
 		f.Defs = append(f.Defs, d)
 	}
+	// references: the general generator writes an identifier only when a constant of structurally the same
+	// type happens to exist; here constants and enum members visible from the main file are named on purpose
+	// (directly, inside a list, as a map value), also across includes
+	visible := func(from *idl.File, d *idl.Def) bool { return d.File == from || from.IncludeIndex(d.File) >= 0 }
+	var typeVisible func(t *idl.Type) bool
+	typeVisible = func(t *idl.Type) bool {
+		if t == nil {
+			return true
+		}
+		if t.Ref != nil {
+			return visible(f, t.Ref)
+		}
+		return typeVisible(t.Key) && typeVisible(t.Elem)
+	}
+	var consts, enums []*idl.Def
+	for _, g := range append([]*idl.File{f}, f.Includes...) {
+		for _, d := range g.Defs {
+			switch {
+			case d.Kind == idl.KConst && typeVisible(d.Type) && !strings.HasPrefix(d.Name, "Cextra"):
+				consts = append(consts, d)
+			case d.Kind == idl.KEnum && len(d.Values) > 0:
+				enums = append(enums, d)
+			}
+		}
+	}
+	next := 9100
+	add := func(t *idl.Type, v *idl.Value) {
+		f.Defs = append(f.Defs, &idl.Def{Kind: idl.KConst, Name: fmt.Sprintf("Cextra%d", next), File: f, Type: t, Value: v})
+		next++
+	}
+	if len(consts) > 0 {
+		for i := rapid.IntRange(0, 2).Draw(rt, "nxref"); i > 0; i-- {
+			c := rapid.SampledFrom(consts).Draw(rt, "xref")
+			id := &idl.Value{Kind: idl.VIdent, Ident: idl.ConstRefText(f, c), RefConst: c}
+			switch rapid.IntRange(0, 3).Draw(rt, "xrefshape") {
+			case 0, 1:
+				add(c.Type, id)
+			case 2:
+				add(&idl.Type{Base: "list", Elem: c.Type}, &idl.Value{Kind: idl.VList, List: []*idl.Value{id, id}})
+			case 3:
+				add(&idl.Type{Base: "map", Key: &idl.Type{Base: "string"}, Elem: c.Type},
+					&idl.Value{Kind: idl.VMap, Keys: []*idl.Value{{Kind: idl.VLit, Lit: idl.PlainLit("k")}}, List: []*idl.Value{id}})
+			}
+		}
+	}
+	if len(enums) > 0 {
+		for i := rapid.IntRange(0, 1).Draw(rt, "nxenum"); i > 0; i-- {
+			e := rapid.SampledFrom(enums).Draw(rt, "xenum")
+			m := rapid.SampledFrom(e.Values).Draw(rt, "xmember")
+			txt := e.Name + "." + m.Name
+			if e.File != f {
+				txt = e.File.Prefix() + "." + txt
+			}
+			byName := &idl.Value{Kind: idl.VIdent, Ident: txt, RefEnum: e, RefVal: m.Name}
+			byNumber := &idl.Value{Kind: idl.VInt, Int: m.Value}
+			et := &idl.Type{Ref: e}
+			switch rapid.IntRange(0, 2).Draw(rt, "xenumshape") {
+			case 0:
+				add(et, byName)
+			case 1:
+				add(&idl.Type{Base: "map", Key: et, Elem: &idl.Type{Base: "list", Elem: et}},
+					&idl.Value{Kind: idl.VMap, Keys: []*idl.Value{byName}, List: []*idl.Value{{Kind: idl.VList, List: []*idl.Value{byNumber, byName}}}})
+			case 2:
+				add(&idl.Type{Base: "set", Elem: et}, &idl.Value{Kind: idl.VList, List: []*idl.Value{byName}})
+			}
+		}
+	}
 }
 
 func genCase(rt *rapid.T) (progCase, map[string]*rowMeta, *idl.Program) {
@@ -1052,8 +1119,10 @@ func genCase(rt *rapid.T) (progCase, map[string]*rowMeta, *idl.Program) {
 			c.Consts = append(c.Consts, constExp{File: f.Path, Pkg: pkgDir(f), Name: d.Name, Type: ref.ExportType(t), Want: toJSONW(t, want)})
 			m := &rowMeta{tags: map[string]bool{}, excluded: g.hitLit}
 			m.tags["const_type:"+t.Kind.String()] = true
-			if strings.HasPrefix(d.Name, "Cextra") {
+			if strings.HasPrefix(d.Name, "Cextra90") {
 				m.tags["extra_const_map_same_key_value_type"] = true
+			} else if strings.HasPrefix(d.Name, "Cextra") {
+				m.tags["extra_const_reference"] = true
 			}
 			if d.Type.ChainLen() > 0 {
 				m.tags["const_type_through_typedef"] = true
